@@ -156,6 +156,13 @@ pub fn corpus(tier: &str) -> Vec<Corpus> {
             }
         }
     }
+    // a derived type with its own vftable block whose first base is placed by an explicit address
+    for (addr, declared_first) in [(0, true), (0, false), (8, true), (8, false)] {
+        let base = "pub type Base {\n    vftable {\n        pub fn v(&self);\n    },\n    pub a: *const u8,\n}\n";
+        let derived = format!("pub type Derived {{\n    vftable {{\n        pub fn v(&self);\n        pub fn w(&self);\n    }},\n    #[base, address({addr})]\n    pub base: Base,\n    pub b: *const u8,\n}}\n");
+        let text = if declared_first { format!("{base}{derived}") } else { format!("{derived}{base}") };
+        out.push(Corpus { input: Input::single(text), features: vec!["addressed_first_base".into()] });
+    }
     // a name supplied by several imported modules / by-name imports: the binding (C11) must not
     // depend on hash seeds either; these are built repeatedly (no schedule can expose them)
     for uses in [vec!["use a;", "use b;"], vec!["use b;", "use a;"], vec!["use a;", "use b;", "use c;"], vec!["use a::X;", "use b::X;"], vec!["use c::X;", "use a::X;", "use b::X;"], vec!["use a;", "use b::X;", "use c;"]] {
